@@ -23,7 +23,7 @@ def build(a, rng):
     if tc["muts"] and rng.random() < 0.5:
         tcgen.known_times(tc, a)
     t = tcgen.build_tc(tc, cmap, tmap)
-    abstr.decorate(t, rng, n_ind=rng.randint(0, 2), n_pop=rng.randint(1, 2))
+    abstr.decorate(t, rng, n_ind=rng.randint(0, 2), n_pop=rng.randint(1, 2), extra_flags=True)
     with_migs = rng.random() < 0.3
     if with_migs:
         for i in range(rng.randint(1, 3)):
@@ -131,6 +131,59 @@ def drive_(a, rng):
     return case
 
 
+def extend_input(rng):
+    """an input on which extend_haplotypes has something to do: a unary node present on part of an edge's span
+    (child -> u -> parent on one stretch, child -> parent next to it); u is sometimes an (internal) sample whose
+    flags carry extra bits"""
+    a = gen.random_abstract(rng, N=rng.randint(3, 6), K=rng.randint(2, 5), max_edges=10, nsites=3, nmuts=3, max_time=3)
+    a["time"] = [2 * t for t in a["time"]]           # leave room for intermediate times
+    for m in a["muts"]:
+        m["time"] = -1
+    edges = [dict(e) for e in a["edges"]]
+    for _ in range(rng.randint(1, 2)):
+        cand = [e for e in edges if e["right"] - e["left"] >= 2 and a["time"][e["parent"]] - a["time"][e["child"]] >= 2]
+        if not cand:
+            break
+        e = rng.choice(cand)
+        cut = rng.randint(e["left"] + 1, e["right"] - 1)
+        u = len(a["time"])
+        a["time"].append(rng.randint(a["time"][e["child"]] + 1, a["time"][e["parent"]] - 1))
+        a["flags"].append(1 if rng.random() < 0.5 else 0)
+        edges.remove(e)
+        lo, hi = (e["left"], cut) if rng.random() < 0.5 else (cut, e["right"])
+        other = (cut, e["right"]) if lo == e["left"] else (e["left"], cut)
+        edges.append(dict(left=lo, right=hi, parent=e["parent"], child=u))
+        edges.append(dict(left=lo, right=hi, parent=u, child=e["child"]))
+        edges.append(dict(left=other[0], right=other[1], parent=e["parent"], child=e["child"]))
+    order = sorted(range(len(edges)), key=lambda i: (a["time"][edges[i]["parent"]], edges[i]["parent"], edges[i]["child"], edges[i]["left"]))
+    a["edges"] = [edges[i] for i in order]
+    # mutation parents may have changed with the new nodes: recompute, and give every mutation a known time
+    return a
+
+
+def extend_case(rng):
+    a = extend_input(rng)
+    cmap = gen.CMap("id")
+    tmap = gen.CMap("id")
+    t = gen.build_tables(a, cmap, tmap)
+    abstr.decorate(t, rng, n_ind=0, n_pop=1, edge_metadata=False, extra_flags=True)
+    t.sort()
+    t.build_index()
+    t.compute_mutation_parents()
+    t.compute_mutation_times()
+    for x in t.mutations.time:
+        tmap.inv[float(x)] = float(x)
+    ts = t.tree_sequence()
+    A = lambda tab: abstr.abstract_of(tab, cmap, tmap, tscale=2)
+    ext = ts.extend_haplotypes()
+    s1, s2 = ts.simplify().dump_tables(), ext.simplify().dump_tables()
+    s1.provenances.clear()
+    s2.provenances.clear()
+    base = A(ts.dump_tables())
+    return dict(a=base, a2=base, ops=[dict(op="extend_haplotypes", base="a2", simplify_same=1 if s1.equals(s2) else 0, b=A(ext.dump_tables()))],
+                changed=0 if ext.tables.edges.equals(ts.tables.edges) else 1)
+
+
 def run():
     chk = Check("C11")
     rng = random.Random(SEED * 7919 + 11)
@@ -144,6 +197,13 @@ def run():
     for i in range(900 if QUICK else 15000):
         a = gen.random_abstract(rng, N=rng.randint(2, 7), K=rng.randint(1, 5), max_edges=12, nsites=4, nmuts=4)
         cases.append(drive(a, rng))
+    nplain = len(cases)
+    for i in range(400 if QUICK else 6000):
+        try:
+            cases.append(extend_case(rng))
+        except Exception as e:
+            import traceback
+            cases.append(dict(error="%s: %s" % (type(e).__name__, e), tb=traceback.format_exc()[-1500:], a=dict(extend=i)))
     for c in [c for c in cases if "error" in c]:
         chk.note_case(c["a"], True)
         chk.violation("an editing operation raised on a valid input: %s\n%s" % (c["error"], c["tb"]), c)
@@ -199,7 +259,8 @@ def run():
             chk.violation("trace rejected by Trace_Edits: %s %s" % (sorted(f), st["eval_errors"].get(c["id"], "")[-400:]), c)
         else:
             chk.traces += 1
-    chk.extra.update(universe_cases=nuni, random_cases=len(cases) - nuni, operations=opcount)
+    chk.extra.update(universe_cases=nuni, random_cases=len(cases) - nuni, operations=opcount,
+                     extend_cases_where_edges_changed=sum(c.get("changed", 0) for c in cases))
     c = cases[-1]
     chk.sample(dict(edges=c["a"]["edges"][:4], ops=[{k: v for k, v in e.items() if k not in ("b", "mid")} for e in c["ops"]]))
     chk.rule = ("tree sequences with a tag on every row x interval lists over unit cells, site-id subsets, cutoff times on a doubled grid "
